@@ -127,7 +127,7 @@ fn window_secs() -> Vec<i64> {
 fn builder_path(ctx: &Ctx) -> SubReport {
     // with_file converts the source file's mtime: −1 s and 2^32 must make it fail, 0 and 2^32−1 not.
     let mut acc = Acc::new();
-    let dir = std::env::temp_dir().join(format!("vcheck-c20-{}", std::process::id()));
+    let dir = crate::ctx::run_dir().join("c20");
     let _ = std::fs::create_dir_all(&dir);
     let cases: [(i64, u32, bool); 6] = [(-1, 0, false), (-1, 999_999_999, false), (0, 0, true), (TWO32 as i64 - 1, 0, true), (TWO32 as i64 - 1, 999_999_999, true), (TWO32 as i64, 0, false)];
     for (i, (secs, nanos, want_ok)) in cases.iter().enumerate() {
